@@ -143,19 +143,19 @@ theorem travOut_snoc (F : Cx) (ρ : Env) (root : String) (steps : List Step) (s 
 
 /-! ### one step of `eval` on the traversal shapes -/
 
-theorem eval_var (F : Cx) (ρ : Env) (x : String) :
+private theorem eval_var (F : Cx) (ρ : Env) (x : String) :
     eval F ρ (.var x) = travOut F ρ x [] := by
   rw [eval_unfold]; unfold eval._sunfold travOut
   simp only []
   cases hl : ρ.lookup x <;> simp [traverseRel]
 
-theorem eval_getAttr (F : Cx) (ρ : Env) (e : Expr) (n : String) :
+private theorem eval_getAttr (F : Cx) (ρ : Env) (e : Expr) (n : String) :
     eval F ρ (.getAttr e n) =
       if hasErrors (eval F ρ e).2 then (Val.dynVal, (eval F ρ e).2)
       else ((getAttr (eval F ρ e).1 n).1, (eval F ρ e).2 ++ (getAttr (eval F ρ e).1 n).2) := by
   rw [eval_unfold]; unfold eval._sunfold; rfl
 
-theorem eval_index_lit (F : Cx) (ρ : Env) (e : Expr) (k : Val) :
+private theorem eval_index_lit (F : Cx) (ρ : Env) (e : Expr) (k : Val) :
     eval F ρ (.index e (.lit k)) =
       ((index F.keepKeyMarks (eval F ρ e).1 k).1, (eval F ρ e).2 ++ (index F.keepKeyMarks (eval F ρ e).1 k).2) := by
   rw [eval_unfold]; unfold eval._sunfold
